@@ -81,7 +81,7 @@ Offer ==
   /\ pc = "offer" /\ pc' = "parse"
   /\ UNCHANGED <<fr, cut, flags, rest>>
   /\ Log("Offer", [st |-> fr.st, plen |-> fr.plen, pad |-> fr.pad, cut |-> cut,
-                   total |-> Total(fr), lay |-> Lay(fr)],
+                   total |-> Total(fr), offs |-> fr.off],
          [returned |-> TRUE])
 
 Cur == Len(flags) + 1
@@ -102,8 +102,14 @@ AllAccepted == Len(flags) = Len(fr.st) /\ (Len(flags) > 0 => flags[Len(flags)])
 RestStart ==
   IF AllAccepted THEN Min(CutD(fr, cut), HdrEnd(fr))
   ELSE Min(CutD(fr, cut), Off(fr, Len(flags)))
-\* a leaf layer consumes its whole body; otherwise every available byte of the datagram is kept;
-\* available link padding is kept or not
+\* a leaf layer consumes its body - or keeps any tail of it (behind its fixed part) as raw payload:
+\* the canonical remainder is the empty one at the end, `lo` is the earliest place a kept tail may
+\* begin.  Otherwise every available byte of the datagram behind the accepted headers is kept.
+\* Available link padding is kept or not.
+RestLo ==
+  IF AllAccepted /\ Leaf(fr.st)
+  THEN Min(CutD(fr, cut), Off(fr, Len(fr.st)) + fr.need[Len(fr.st)])
+  ELSE RestStart
 RestLens ==
   LET padAv == cut - CutD(fr, cut)
       base  == IF AllAccepted /\ Leaf(fr.st) THEN 0 ELSE CutD(fr, cut) - RestStart
@@ -112,7 +118,7 @@ Rest ==
   /\ pc = "rest" /\ pc' = "print"
   /\ \E n \in RestLens :
        /\ rest' = [start |-> RestStart, len |-> n]
-       /\ Log("Rest", [x |-> 0], [start |-> RestStart, len |-> n])
+       /\ Log("Rest", [x |-> 0], [start |-> RestStart, len |-> n, lo |-> RestLo])
   /\ UNCHANGED <<fr, cut, flags>>
 
 Quiet(name) == UNCHANGED <<fr, cut, flags, rest>> /\ Log(name, [x |-> 0], [ok |-> TRUE])
